@@ -74,6 +74,23 @@ Theorem C11_contact_force :
 Proof. exact contact_force_elliptic. Qed.
 Print Assumptions C11_contact_force.
 
+(* dual solvers: the dry-friction row update of solNoSlip / solPGS (force and bound of the same row)
+   stays within the row's frictionloss and is mju_clip to [-floss, floss]; the noslip update of a pair of
+   opposing pyramid edges keeps both edges non-negative and their sum (the normal share) unchanged *)
+Theorem C11_noslip_friction :
+  forall force res arinv fl : R, 0 <= fl ->
+    Rabs (noslip_fric_update force res arinv fl) <= fl /\
+    noslip_fric_update force res arinv fl = mju_clip (force - res * arinv) (- fl) fl.
+Proof. exact noslip_fric_spec. Qed.
+Print Assumptions C11_noslip_friction.
+
+Theorem C11_noslip_pyramid :
+  forall mid y : R, 0 <= mid ->
+    0 <= fst (noslip_pyr_pair mid y) /\ 0 <= snd (noslip_pyr_pair mid y) /\
+    fst (noslip_pyr_pair mid y) + snd (noslip_pyr_pair mid y) = 2 * mid.
+Proof. exact noslip_pyr_pair_adm. Qed.
+Print Assumptions C11_noslip_pyramid.
+
 (* non-vacuity: the composition of Props/C12.v's example (equality, friction-loss, limit rows and an
    elliptic contact of dimension 3) also has positive efc_D and non-zero friction coefficients *)
 Example C11_hyp_example :
